@@ -7,9 +7,28 @@
     [bitmap.SafeGet]    [ws; i]        any int32 i              -> [SafeGet; SafeGet1]
     [bitmap.OfMany]     [subs; sizes]                           -> words
     [bitmap.Builder]    [n; [op...]]   op = [0; ps; size] (Extend) | [1; p; v] (Set)
-                                       -> [[Words; Offset] after NewBuilder and after every call] *)
+                                       -> [[Words; Offset] after NewBuilder and after every call]
+    widening (neighbouring code of package bitmap):
+    [bitmap.Mask]       [i]            any int i                -> [Mask[i]; RMask[i]]           (P outside 0..64)
+    [bitmap.Bit]        [i]            any int i                -> [MaskUpto[i]; RMaskUpto[i]; Bit[i]; RBit[i]]  (P outside 0..63)
+    [bitmap.Fmt/c12]      [sz; signed; slice; xs]  Fmt of one integer (slice = 0, xs = [x]) or of a slice of integers of
+                                       sz bytes (1,2,4,8; signed only tells the harness which Go type to build);
+                                       any other sz = a non-integer type (string / []string)  -> the string (P = panic)
+    [bitmap.Of/query]   [ps; opt; tr; i; e]   r = Of(ps, opt...), 0 <= i <= e <= 64 len(r), i < 64 len(r), 1 <= e
+                                       -> [Rank64(r, IndexRank64(r, tr), i); Rank128(r, IndexRank128(r), i);
+                                           NextOne(r, i, e); PrevOne(r, i, e)]
+    [bitmap.Builder/query] [n; ops; tr; i; e]  the same four queries on Words after the history
+    [bitmap.OfMany/asOf] [subs; sizes] equal lengths; positions >= size allowed in ANY segment (the shifted concatenation
+                                       need not be ascending, Of may panic)  -> [1] if OfMany(subs, sizes) and
+                                       Of(shifted concatenation, sum of sizes) agree (same words, or both panic), else [0; a; b].
+                                       Only the RELATION is observed, so Of's behaviour outside its own domain is not pinned.
+    [bitmap.Builder/asOfMany] [n; subs; sizes]  ascending shifted concatenation: NewBuilder(n) + one Extend per segment
+                                       -> [1] if Words = OfMany(subs, sizes) word for word and Offset = sum of sizes,
+                                          else [0; OfMany; Words; Offset] *)
 From Coq Require Import ZArith List Bool String.
-From Low Require Import Lib.Bits Lib.BitSeq Lib.Val Model.BuilderOps Model.BitmapOf Spec.OfSpec.
+From Low Require Import Lib.Bits Lib.BitSeq Lib.Val Model.BuilderOps Model.BitmapOf Spec.OfSpec
+  Model.BitmapMask12 Spec.MaskSpec12 Model.BitmapFmt12 Spec.FmtSpec12
+  Model.Rank Model.BitmapNext Spec.OfQuerySpec.
 Import ListNotations.
 Open Scope string_scope.
 Open Scope Z_scope.
@@ -50,7 +69,7 @@ Fixpoint builder_hist_ok (abs_states : list abs) (obs : list val) : bool :=
   | _, _ => false
   end.
 
-Definition ops_C12 : list opdef := [
+Definition ops_C12_core : list opdef := [
   {| op_name := "bitmap.Of";
      op_run := fun a => match a with
        | [ps; opt] => match as_zs ps, as_opt opt with
@@ -149,3 +168,129 @@ Definition ops_C12 : list opdef := [
            | _, _ => false end
        | _ => false end |}
 ].
+
+(** * widening: the exported mask tables (bitmap/mask.go), read by Get/SafeGet (Bit) and by C01/C02/C13/C14 *)
+Definition vmask (o : option (Z * Z)) : val :=
+  match o with Some (a, b) => VL [VZ a; VZ b] | None => VPanic end.
+Definition vbit (o : option (Z * Z * Z * Z)) : val :=
+  match o with Some (a, b, c, d) => VL [VZ a; VZ b; VZ c; VZ d] | None => VPanic end.
+
+Definition ops_C12_wide : list opdef := [
+  {| op_name := "bitmap.Mask";
+     op_run := fun a => match a with
+       | [i] => match as_z i with Some i => vmask (mask_at i) | None => VBad end
+       | _ => VBad end;
+     op_spec := fun_spec (fun a => match a with
+       | [i] => match as_z i with Some i => vmask (spec_mask_at i) | None => VBad end
+       | _ => VBad end) |};
+  {| op_name := "bitmap.Bit";
+     op_run := fun a => match a with
+       | [i] => match as_z i with Some i => vbit (bit_at i) | None => VBad end
+       | _ => VBad end;
+     op_spec := fun_spec (fun a => match a with
+       | [i] => match as_z i with Some i => vbit (spec_bit_at i) | None => VBad end
+       | _ => VBad end) |};
+  {| op_name := "bitmap.Fmt/c12";
+     op_run := fun a => match a with
+       | [sz; sg; sl; xs] => match as_z sz, as_z sg, as_bool sl, as_zs xs with
+           | Some sz, Some _, Some sl, Some xs => vwords (Fmt sz sl xs)
+           | _, _, _, _ => VBad end
+       | _ => VBad end;
+     op_spec := fun_spec (fun a => match a with
+       | [sz; sg; sl; xs] => match as_z sz, as_bool sl, as_zs xs with
+           | Some sz, Some sl, Some xs => vwords (spec_Fmt sz sl xs)
+           | _, _, _ => VBad end
+       | _ => VBad end) |}
+].
+
+(** * widening: the constructors composed with the readers of C01 and C13 *)
+Definition vpz (p : Z * Z) : val := VL [VZ (fst p); VZ (snd p)].
+Definition run_query (r : list Z) (tr : bool) (i e : Z) : val :=
+  match Rank64 r (IndexRank64 r tr) i, Rank128 r (IndexRank128 r) i, NextOne r i e, PrevOne r i e with
+  | Some a, Some b, Some c, Some d => VL [vpz a; vpz b; VZ c; VZ d]
+  | _, _, _, _ => VPanic
+  end.
+Definition vquery (q : (Z * Z) * (Z * Z) * Z * Z) : val :=
+  let '(a, b, c, d) := q in VL [vpz a; vpz b; VZ c; VZ d].
+Definition range_ok (nbits i e : Z) : bool :=
+  (0 <=? i) && (i <=? e) && (e <=? nbits) && (i <? nbits) && (1 <=? e).
+
+Fixpoint bfoldM (b : builder) (ops : list bop) : option builder :=
+  match ops with
+  | [] => Some b
+  | o :: t => bind (bstep b o) (fun b' => bfoldM b' t)
+  end.
+
+Definition ops_C12_query : list opdef := [
+  {| op_name := "bitmap.Of/query";
+     op_run := fun a => match a with
+       | [ps; opt; tr; i; e] => match as_zs ps, as_opt opt, as_bool tr, as_z i, as_z e with
+           | Some ps, Some opt, Some tr, Some i, Some e =>
+               if query_dom ps opt i e then
+                 match Of ps opt with Some r => run_query r tr i e | None => VPanic end
+               else VBad
+           | _, _, _, _, _ => VBad end
+       | _ => VBad end;
+     op_spec := fun_spec (fun a => match a with
+       | [ps; opt; tr; i; e] => match as_zs ps, as_z i, as_z e with
+           | Some ps, Some i, Some e => vquery (spec_query (usort ps) i e)
+           | _, _, _ => VBad end
+       | _ => VBad end) |};
+  {| op_name := "bitmap.Builder/query";
+     op_run := fun a => match a with
+       | [n; ops; tr; i; e] => match as_z n, as_bops ops, as_bool tr, as_z i, as_z e with
+           | Some n, Some ops, Some tr, Some i, Some e =>
+               if (0 <=? n) && forallb bop_dom ops then
+                 match bind (NewBuilder n) (fun b => bfoldM b ops) with
+                 | Some b => if range_ok (64 * zlen (Words b)) i e then run_query (Words b) tr i e else VBad
+                 | None => VPanic end
+               else VBad
+           | _, _, _, _, _ => VBad end
+       | _ => VBad end;
+     op_spec := fun_spec (fun a => match a with
+       | [n; ops; tr; i; e] => match as_bops ops, as_z i, as_z e with
+           | Some ops, Some i, Some e =>
+               vquery (spec_query (usort (abits (fold_left astep ops {| abits := []; aoff := 0 |}))) i e)
+           | _, _, _ => VBad end
+       | _ => VBad end) |}
+].
+
+(** * widening: OfMany is Of on the shifted concatenation, whatever Of does with it *)
+Definition owords_eqb (a b : option (list Z)) : bool :=
+  match a, b with
+  | Some x, Some y => zs_eqb x y
+  | None, None => true
+  | _, _ => false
+  end.
+
+Definition ops_C12_any : list opdef := [
+  {| op_name := "bitmap.OfMany/asOf";
+     op_run := fun a => match a with
+       | [subs; sizes] => match as_zss subs, as_zs sizes with
+           | Some subs, Some sizes =>
+               if (List.length subs =? List.length sizes)%nat then
+                 let x := OfMany subs sizes in
+                 let y := Of (shifted subs sizes 0) (Some (total sizes)) in
+                 if owords_eqb x y then VL [VZ 1] else VL [VZ 0; vwords x; vwords y]
+               else VBad
+           | _, _ => VBad end
+       | _ => VBad end;
+     op_spec := fun_spec (fun _ => VL [VZ 1]) |};
+  {| op_name := "bitmap.Builder/asOfMany";
+     op_run := fun a => match a with
+       | [n; subs; sizes] => match as_z n, as_zss subs, as_zs sizes with
+           | Some n, Some subs, Some sizes =>
+               if (0 <=? n) && ofmany_dom subs sizes && forallb (fun ps => sortedb ps && nonnegb ps) subs then
+                 let ops := map (fun x => BExtend (fst x) (snd x)) (combine subs sizes) in
+                 match bind (NewBuilder n) (fun b => bfoldM b ops), OfMany subs sizes with
+                 | Some b, Some r =>
+                     if zs_eqb r (Words b) && (Offset b =? total sizes) then VL [VZ 1]
+                     else VL [VZ 0; vzs r; vzs (Words b); VZ (Offset b)]
+                 | _, _ => VPanic end
+               else VBad
+           | _, _, _ => VBad end
+       | _ => VBad end;
+     op_spec := fun_spec (fun _ => VL [VZ 1]) |}
+].
+
+Definition ops_C12 : list opdef := ops_C12_core ++ ops_C12_wide ++ ops_C12_query ++ ops_C12_any.
